@@ -287,7 +287,9 @@ def random_spec(rng, **o):
         s.channel_map = np.arange(nc, dtype=np.int64)
     nsh = g('shanks', 0)
     pos, sh = geometry(rng, nc, max(1, nsh), ties=g('ties', False), interleave=g('interleave', False))
-    s.positions = pos
+    if g('pos_offset', 0):
+        pos = pos + g('pos_offset', 0)           # absolute coordinates far from the origin
+    s.positions = pos.astype(g('dtype_pos', 'float64'))
     s.shanks = sh if nsh else None
     if g('probes', False):
         s.probes = np.sort(rng.integers(0, 2, size=nc)).astype(np.int32)
